@@ -137,6 +137,15 @@ def val_ite(c, a, b):
         return z3.If(c, zi(a), zi(b))
     if isinstance(a, (bool, z3.BoolRef)) and isinstance(b, (bool, z3.BoolRef)):
         return z3.If(c, zb(a), zb(b))
+    if isinstance(a, SMaxRank) or isinstance(b, SMaxRank):
+        def mr(x):
+            if isinstance(x, SMaxRank):
+                return x
+            if isinstance(x, SInf):
+                return SMaxRank('inf', z3.BoolVal(True), z3.IntVal(0))
+            return SMaxRank('int', z3.BoolVal(False), zi(x))
+        a2, b2 = mr(a), mr(b)
+        return SMaxRank('ite', z3.If(c, a2.is_inf, b2.is_inf), z3.If(c, a2.val, b2.val))
     if isinstance(a, SOpt) or isinstance(b, SOpt):
         a = a if isinstance(a, SOpt) else SOpt(z3.BoolVal(not isinstance(a, SNone)), a if not isinstance(a, SNone) else b.val)
         b = b if isinstance(b, SOpt) else SOpt(z3.BoolVal(not isinstance(b, SNone)), b if not isinstance(b, SNone) else a.val)
@@ -186,6 +195,9 @@ class SList:
 
     def get(self, idx):
         """idx: normalised index (python int or Int term)"""
+        tr = getattr(self, 'transient', None)
+        if tr is not None and z3.is_true(z3.simplify(zi(idx) == tr[0])):
+            return tr[1]
         if self.items is not None:
             c = as_conc(idx)
             if c is not None:
@@ -217,6 +229,17 @@ class SList:
         self.fn, self.length, self.items = f, len(items), None
 
     def set(self, idx, val):
+        # a core list transiently holding a matrix (x.cores[i] = <2-d>; x.cores[i] = x.cores[i].reshape(4-d)): the matrix is
+        # kept aside and must be replaced by a 4-d array before the list is inspected by a specification
+        if self.kind == 'arr' and isinstance(val, SArr) and len(val.shape) != 4:
+            self.transient = (zi(idx), val)
+            return
+        tr = getattr(self, 'transient', None)
+        if tr is not None:
+            if z3.is_true(z3.simplify(zi(idx) == tr[0])):
+                self.transient = None
+            else:
+                raise Unsupported('core list written while another slot holds a non-4-d array')
         c = as_conc(idx)
         if self.items is not None and c is not None:
             self.items[c] = val
@@ -229,6 +252,7 @@ class SList:
     def snapshot(self):
         """immutable view (same ref) for old() references"""
         v = SList(self.ref, self.length, self.fn, None if self.items is None else list(self.items), self.kind)
+        v.transient = getattr(self, 'transient', None)
         return v
 
 
@@ -273,3 +297,8 @@ class SIndexSet:
 
     def __init__(self, pred):
         self.pred = pred
+
+
+def is_tag(x, tag):
+    """x is a tagged tuple ('tag', ...): safe against tuples of z3 terms (whose == would build a formula)"""
+    return isinstance(x, tuple) and len(x) > 0 and isinstance(x[0], str) and x[0] == tag
